@@ -13,6 +13,8 @@ import (
 	"k8s.io/utils/ptr"
 
 	schedulingv1alpha2 "github.com/NVIDIA/KAI-scheduler/pkg/apis/scheduling/v1alpha2"
+
+	"verif/harness/internal/store"
 )
 
 var claimGVR = resourceapi.SchemeGroupVersion.WithResource("resourceclaims")
@@ -100,6 +102,27 @@ func devicesOf(c *resourceapi.ResourceClaim) []string {
 // pod reached a terminal phase) is removed from status.reservedFor; a claim nobody reserves is deallocated; a claim
 // generated from a template is deleted with its owner pod.
 func (w *World) reconcileClaims() {
+	logs, writes := ReconcileClaims(w.St)
+	w.Log = append(w.Log, logs...)
+	w.ClaimWrites += writes
+}
+
+// ReconcileClaims is the stand-alone form (used by drivers with their own kubelet step, e.g. C12).
+func ReconcileClaims(st *store.Store) (logs []string, writes int) {
+	w := &claimReconciler{St: st}
+	w.run()
+	return w.Log, w.ClaimWrites
+}
+
+type claimReconciler struct {
+	St          *store.Store
+	Log         []string
+	ClaimWrites int
+}
+
+func (w *claimReconciler) logf(f string, a ...any) { w.Log = append(w.Log, fmt.Sprintf(f, a...)) }
+
+func (w *claimReconciler) run() {
 	o := w.St.ReadAll()
 	if len(o.ResourceClaims) == 0 {
 		return
